@@ -130,7 +130,7 @@ func c05Judge(c *mon.Ctx, in *progInput) {
 	opts, _, _, _ := libOptions(in)
 	opts = append(opts, interpreter.WithDebugger(rec))
 	var libErr error
-	if !c.Try("interpreter.Engine.Execute", func() { libErr = interpreter.NewEngine().Execute(opts...) }) {
+	if !c.Try("interpreter.Engine.Execute", func() { libErr = theEngine(c).Execute(opts...) }) {
 		c.Count("C05:lib-panicked")
 		return
 	}
